@@ -328,7 +328,7 @@ func (e *Enc) frameGoals(st *State, only map[string]bool) []frameGoal {
 		if only != nil && !only[name] {
 			continue
 		}
-		if whole[name] || strings.HasPrefix(name, "X:defer_") || name == "X:protected" {
+		if whole[name] || strings.HasPrefix(name, "X:defer_") || name == "X:protected" || name == "X:section" || name == "X:held" {
 			continue
 		}
 		srt := e.compSort[name]
@@ -366,11 +366,11 @@ func (e *Enc) frameGoals(st *State, only map[string]bool) []frameGoal {
 			}
 			body = Term{fmt.Sprintf("(forall ((%s Int)) (=> (not %s) (= (select (select %s %s) %s) (select (select %s %s) %s))))", j.S, Or(ex2...).S, cur.S, o.S, j.S, old.S, o.S, j.S), SBool}
 		}
-		guard := And(Not(Eq(o, I(0))), Lt(e.root(o), pre.hwm), Not(Or(excl...)))
+		guard := And(Lt(e.root(o), pre.hwm), Not(Or(excl...)))
 		if o.Sort != SInt {
 			guard = Not(Or(excl...))
 		}
-		goal := Term{fmt.Sprintf("(forall ((%s %s)) (=> %s %s))", o.S, o.Sort, guard.S, body.S), SBool}
+		goal := Term{fmt.Sprintf("(forall ((%s %s)) (! (=> %s %s) :pattern ((select %s %s)) :pattern ((select %s %s))))", o.S, o.Sort, guard.S, body.S, cur.S, o.S, old.S, o.S), SBool}
 		out = append(out, frameGoal{name, goal, "only locations named in the modifies clause change in " + name})
 	}
 	return out
@@ -403,6 +403,7 @@ func (e *Enc) useLemmas(st *State, results ...Val) {
 			return
 		}
 		sc := e.specCtx(st, e.pre)
+		sc.preferLocals = true
 		if len(results) > 0 {
 			sc.bindResults(results, e.fn.Signature.Results())
 		}
@@ -422,12 +423,16 @@ func (e *Enc) useLemmas(st *State, results ...Val) {
 				break
 			}
 			n.vars[q.Vars[i].Name] = Val{T: e.def("inst", e.asTerm(st, v))}
-			n.vtypes[q.Vars[i].Name] = nil
+			_, gt := sortOfSpecType(e.P, q.Vars[i].Type, e.P.ByName[ax.Pkg])
+			n.vtypes[q.Vars[i].Name] = gt
 		}
 		if bad {
 			continue
 		}
 		n.locals = false
+		if p := e.P.ByName[ax.Pkg]; p != nil {
+			n.pkg = p
+		}
 		t, err := n.evalBool(q.Body)
 		if err != nil {
 			e.unsupported = "use " + u.Fun + ": " + err.Error()
